@@ -1153,8 +1153,12 @@ func extractC16Sem(c *ctxT) {
 		}
 		sb.WriteString("  " + leanList(l) + sep + "\n")
 	}
-	sb.WriteString("]\n\nend FxVerif.Gen.C16Sem\n")
+	sb.WriteString("]\n\n")
+	pe := c16ProposalExec(c)
+	fmt.Fprintf(&sb, "/-- x/gov/abci.go EndBlocker, `case passes:` -/\ndef proposalExec : ProposalExec := { runsOnCache := %v, breaksOnError := %v, writeGuardedByNoError := %v }\n\n", pe[0], pe[1], pe[2])
+	sb.WriteString("end FxVerif.Gen.C16Sem\n")
 	c.write("C16Sem.lean", sb.String())
+	c.facts["C16.proposalExec"] = pe
 
 	c.facts["C16.impls"] = fImpls
 	c.facts["C16.registrations"] = fRegs
@@ -1200,4 +1204,78 @@ func (x *c16x) constString(imps map[string]string, e ast.Expr) string {
 		}
 	}
 	return "?" + x.c.src(e)
+}
+
+// c16ProposalExec reads how the fx-core governance end-blocker executes the messages of a passed proposal:
+// [handlers run on the context from ctx.CacheContext(), the loop breaks on the first error, writeCache() only under err == nil].
+func c16ProposalExec(c *ctxT) [3]bool {
+	var res [3]bool
+	fd := c.findFunc("x/gov", "", "EndBlocker")
+	if fd == nil || fd.Body == nil {
+		return res
+	}
+	ast.Inspect(fd.Body, func(n ast.Node) bool {
+		cc, ok := n.(*ast.CaseClause)
+		if !ok || len(cc.List) != 1 || c.src(cc.List[0]) != "passes" {
+			return true
+		}
+		cacheVar, writeVar := "", ""
+		for _, st := range cc.Body {
+			if as, ok := st.(*ast.AssignStmt); ok && len(as.Lhs) == 2 && len(as.Rhs) == 1 && strings.HasSuffix(c.src(as.Rhs[0]), ".CacheContext()") {
+				cacheVar, writeVar = c.src(as.Lhs[0]), c.src(as.Lhs[1])
+			}
+		}
+		if cacheVar == "" {
+			return false
+		}
+		loops, onCache, brk := 0, true, false
+		writes, guarded := 0, 0
+		for _, st := range cc.Body {
+			switch t := st.(type) {
+			case *ast.RangeStmt:
+				loops++
+				calls := 0
+				ast.Inspect(t.Body, func(m ast.Node) bool {
+					if call, ok := m.(*ast.CallExpr); ok {
+						fs := c.src(call.Fun)
+						if (fs == "safeExecuteHandler" || fs == "handler") && len(call.Args) >= 2 {
+							calls++
+							if c.src(call.Args[0]) != cacheVar {
+								onCache = false
+							}
+						}
+					}
+					return true
+				})
+				if calls == 0 {
+					onCache = false
+				}
+				for _, bs := range t.Body.List {
+					if ifs, ok := bs.(*ast.IfStmt); ok && ifs.Init == nil && c.src(ifs.Cond) == "err != nil" && len(ifs.Body.List) == 1 {
+						if b, ok := ifs.Body.List[0].(*ast.BranchStmt); ok && b.Tok == token.BREAK {
+							brk = true
+						}
+					}
+				}
+			case *ast.IfStmt:
+				if t.Init == nil && c.src(t.Cond) == "err == nil" {
+					ast.Inspect(t.Body, func(m ast.Node) bool {
+						if call, ok := m.(*ast.CallExpr); ok && c.src(call.Fun) == writeVar {
+							guarded++
+						}
+						return true
+					})
+				}
+			}
+			ast.Inspect(st, func(m ast.Node) bool {
+				if call, ok := m.(*ast.CallExpr); ok && c.src(call.Fun) == writeVar {
+					writes++
+				}
+				return true
+			})
+		}
+		res = [3]bool{loops == 1 && onCache, brk, writes >= 1 && writes == guarded}
+		return false
+	})
+	return res
 }
